@@ -283,7 +283,9 @@ theorem step7_inv (o : Oracles) (es) (h : inv o (.obj es) = true) : InvOK o (mig
   · rename_i w
     obtain ⟨s', d', e, hm, _, ho⟩ := moves_spec v7Moves (.obj w) []
     obtain ⟨ss, rfl⟩ := (ho trivial).elim
-    obtain ⟨hs, hd, _⟩ := moves_sub (ex' := []) v7Moves hk (by simp [subOK]) trivial (by decide) hm
+    obtain ⟨hs, hd, _⟩ := moves_sub (ex' := []) (dst := .obj []) v7Moves hk (by simp [subOK]) (isObj_obj _)
+      (by decide) hm
+    have hdc : clean o (.obj d') = true := by rw [← subOK_nil]; exact hd
     simp only [hm]
     inv_fin
   · inv_fin
@@ -300,7 +302,7 @@ theorem step15_inv (o : Oracles) (es) (h : inv o (.obj es) = true) : InvOK o (mi
         (kInterval, .str s2160h), (kSizeMemory, .int 1000)]
     obtain ⟨ss, rfl⟩ := (ho trivial).elim
     obtain ⟨hs, hd, _⟩ := moves_sub (ex' := exc kQuerylog) v15Moves hk
-      (by simp (config := {decide := true}) [subOK, clean, cleanList, exc]) trivial (by decide) hm
+      (by simp (config := {decide := true}) [subOK, clean, cleanList, exc, excOK]) (isObj_obj _) (by decide) hm
     simp only [hm]
     inv_fin
   · inv_fin
@@ -314,7 +316,8 @@ theorem step26_inv (o : Oracles) (es) (h : inv o (.obj es) = true) : InvOK o (mi
   · rename_i w
     obtain ⟨s', d', e, hm, _, ho⟩ := moves_spec v26Moves (.obj w) []
     obtain ⟨ss, rfl⟩ := (ho trivial).elim
-    obtain ⟨hs, hd, _⟩ := moves_sub (ex' := exc kFiltering) v26Moves hk (by simp [subOK]) trivial (by decide) hm
+    obtain ⟨hs, hd, _⟩ := moves_sub (ex' := exc kFiltering) (dst := .obj []) v26Moves hk (by simp [subOK])
+      (isObj_obj _) (by decide) hm
     simp only [hm]
     cases d' <;> inv_fin
   · inv_fin
@@ -325,9 +328,234 @@ theorem step24_inv (o : Oracles) (es) (h : inv o (.obj es) = true) : InvOK o (mi
   simp only [migrateTo24, stamp_obj]
   obtain ⟨s', d', e, hm, _, ho⟩ := moves_spec v24Moves (.obj (insert kSchemaVersion (.int ((24 : Nat) : Int)) es)) []
   obtain ⟨ss, rfl⟩ := (ho trivial).elim
-  obtain ⟨⟨es', he, hD'⟩, hd, _⟩ := moves_top v24Moves hD (by simp [clean, cleanEnts]) trivial (by decide) hm
+  obtain ⟨⟨es', he, hD'⟩, hd, _⟩ := moves_top (dst := .obj []) v24Moves hD (by simp [clean, cleanEnts]) (isObj_obj _)
+    (by decide) hm
   cases he
   simp only [hm]
   cases d' <;> inv_fin
+
+/-! ### loops over sequences keep them clean -/
+
+theorem clean_insert {o : Oracles} {ws : List (Key × YVal)} {k : Key} {v : YVal}
+    (h : clean o (.obj ws) = true) (hv : clean o v = true) : clean o (.obj (insert k v ws)) = true := by
+  rw [← subOK_nil] at h ⊢
+  exact subOK_insert h (by simpa using hv)
+
+theorem mapM'_clean {o : Oracles} {f : YVal → M YVal}
+    (hf : ∀ x y, clean o x = true → f x = .ok y → clean o y = true) :
+    ∀ xs ys, cleanList o xs = true → mapM' f xs = .ok ys → cleanList o ys = true
+  | [], ys, _, h => by simp [mapM'] at h; subst h; rfl
+  | x :: xs, ys, hc, h => by
+    simp [cleanList] at hc
+    unfold mapM' at h
+    cases hx : f x with
+    | error e => simp [hx] at h
+    | ok y =>
+      cases hxs : mapM' f xs with
+      | error e => simp [hx, hxs] at h
+      | ok ys' =>
+        simp [hx, hxs] at h; subst h
+        simp [cleanList, hf x y hc.1 hx, mapM'_clean hf xs ys' hc.2 hxs]
+
+theorem v4Client_clean (o : Oracles) (x y : YVal) (hc : clean o x = true) (h : v4Client x = .ok y) :
+    clean o y = true := by
+  unfold v4Client at h
+  cases x <;> simp [setK] at h <;> try (subst h; exact hc)
+  subst h; exact clean_insert hc rfl
+
+theorem v6Ids_clean (o : Oracles) (c : YVal) (hc : clean o c = true) :
+    ∀ (ids : List Key) (vs : List YVal), v6Ids c ids = .ok vs → cleanList o vs = true
+  | [], vs, h => by simp [v6Ids] at h; subst h; rfl
+  | id :: rest, vs, h => by
+    unfold v6Ids at h
+    dsimp only at h
+    have hv : clean o (fieldVal .str c id).v = true :=
+      fv_kid (ex := []) (by rw [subOK_nil]; exact hc) (by simp) .str
+    split at h
+    · simp at h
+    · cases hr : v6Ids c rest with
+      | error e => simp [hr] at h
+      | ok vs' =>
+        have ih := v6Ids_clean o c hc rest vs' hr
+        simp only [hr] at h
+        split at h
+        · simp at h; subst h; exact ih
+        · simp at h; subst h; simp [cleanList, hv, ih]
+
+theorem v6Client_clean (o : Oracles) (x y : YVal) (hc : clean o x = true) (h : v6Client x = .ok y) :
+    clean o y = true := by
+  unfold v6Client at h
+  cases x <;> simp [typeErr] at h
+  rename_i ws
+  cases hi : v6Ids (.obj ws) [kIp, kMac] with
+  | error e => simp [hi] at h
+  | ok ids =>
+    simp [hi, setK] at h; subst h
+    exact clean_insert hc (by simp [clean, v6Ids_clean o _ hc _ _ hi])
+
+theorem v19Client_clean (o : Oracles) (x y : YVal) (hc : clean o x = true) (h : v19Client x = .ok y) :
+    clean o y = true := by
+  unfold v19Client at h
+  cases x <;> simp at h <;> try (subst h; exact hc)
+  rename_i ws
+  cases hm : moveVal .bool (.obj ws) safeSearchDefault kSafesearchEnabled kEnabled with
+  | error f => simp [hm] at h
+  | ok t =>
+    obtain ⟨c', ss, e⟩ := t
+    obtain ⟨hs, hd, _⟩ := moveVal_sub (o := o) (ex := []) (ex' := []) .bool kSafesearchEnabled kEnabled
+      (by rw [subOK_nil]; exact hc) (by simp [safeSearchDefault, subOK, clean]) (by simp [safeSearchDefault, IsObj])
+      (by simp) hm
+    rw [subOK_nil] at hs hd
+    simp only [hm] at h
+    -- `c'` is the client or the client without a key: a map
+    have hobj : IsObj c' := by
+      unfold moveVal at hm; dsimp only at hm
+      split at hm
+      · simp [safeSearchDefault, setK, delK] at hm; rw [← hm.1]; trivial
+      · simp at hm; rw [← hm.1]; trivial
+    obtain ⟨cs, rfl⟩ := hobj.elim
+    simp [setK] at h; subst h
+    exact clean_insert hs hd
+
+theorem v22Client_clean (o : Oracles) (x y : YVal) (hc : clean o x = true) (h : v22Client x = .ok y) :
+    clean o y = true := by
+  unfold v22Client at h
+  cases x <;> simp [typeErr] at h
+  rename_i ws
+  have hv : clean o (fieldVal .arr (.obj ws) kBlockedServices).v = true :=
+    fv_kid (ex := []) (by rw [subOK_nil]; exact hc) (by simp) .arr
+  split at h
+  · simp at h
+  · split at h
+    · simp [setK] at h; subst h
+      exact clean_insert hc (by simp [clean, cleanEnts, hv, scheduleDefault])
+    · simp at h; subst h; exact hc
+
+theorem step4_inv (o : Oracles) (es) (h : inv o (.obj es) = true) : InvOK o (migrateTo4 (.obj es)) := by
+  have hD := inv_stamp h ((4 : Nat) : Int)
+  simp only [migrateTo4, stamp_obj]
+  split
+  · rename_i xs hg
+    have hc : clean o (.arr xs) = true := top_read hD (by decide) _ hg
+    simp only [clean] at hc
+    cases hm : mapM' v4Client xs with
+    | error e => simp [InvOK]
+    | ok ys =>
+      have := mapM'_clean (v4Client_clean o) xs ys hc hm
+      inv_fin
+  · inv_fin
+
+theorem step6_inv (o : Oracles) (es) (h : inv o (.obj es) = true) : InvOK o (migrateTo6 (.obj es)) := by
+  have hD := inv_stamp h ((6 : Nat) : Int)
+  have hc := fv_clean_top hD .arr (k := kClients) (by decide)
+  simp only [migrateTo6, stamp_obj]
+  fv_split
+  · rename_i xs
+    simp only [clean] at hc
+    cases xs with
+    | nil => inv_fin
+    | cons x xs =>
+      cases hm : mapM' v6Client (x :: xs) with
+      | error e => simp [InvOK, hm]
+      | ok ys =>
+        have := mapM'_clean (v6Client_clean o) _ ys hc hm
+        inv_fin
+  · inv_fin
+  · inv_fin
+
+theorem step19_inv (o : Oracles) (es) (h : inv o (.obj es) = true) : InvOK o (migrateTo19 (.obj es)) := by
+  have hD := inv_stamp h ((19 : Nat) : Int)
+  have hc := fv_clean_top hD .obj (k := kClients) (by decide)
+  simp only [migrateTo19, stamp_obj]
+  fv_split
+  · rename_i w
+    split
+    · rename_i xs hg
+      have hx : clean o (.arr xs) = true := clean_kid hc hg
+      simp only [clean] at hx
+      cases hm : mapM' v19Client xs with
+      | error e => simp [InvOK]
+      | ok ys =>
+        have := mapM'_clean (v19Client_clean o) xs ys hx hm
+        have hp : clean o (.obj (insert kPersistent (.arr ys) w)) = true := clean_insert hc (by simpa [clean] using this)
+        simp only [InvOK, putK]
+        exact inv_insert hD (by rw [show exc kClients = [] by decide, subOK_nil]; exact hp)
+    · inv_fin
+  · inv_fin
+  · inv_fin
+
+theorem step22_inv (o : Oracles) (es) (h : inv o (.obj es) = true) : InvOK o (migrateTo22 (.obj es)) := by
+  have hD := inv_stamp h ((22 : Nat) : Int)
+  have hc := fv_clean_top hD .obj (k := kClients) (by decide)
+  simp only [migrateTo22, stamp_obj]
+  fv_split
+  · rename_i w
+    have hx := fv_kid (ex := []) (by rw [subOK_nil]; exact hc) (k := kPersistent) (by simp) .arr
+    fv_split
+    · rename_i xs
+      simp only [clean] at hx
+      cases xs with
+      | nil => inv_fin
+      | cons x xs =>
+        cases hm : mapM' v22Client (x :: xs) with
+        | error e => simp [InvOK, hm]
+        | ok ys =>
+          have := mapM'_clean (v22Client_clean o) _ ys hx hm
+          have hp : clean o (.obj (insert kPersistent (.arr ys) w)) = true :=
+            clean_insert hc (by simpa [clean] using this)
+          simp only [hm, InvOK, putK]
+          exact inv_insert hD (by rw [show exc kClients = [] by decide, subOK_nil]; exact hp)
+    · inv_fin
+    · inv_fin
+  · inv_fin
+  · inv_fin
+
+theorem step10_inv (o : Oracles) (es) (h : inv o (.obj es) = true) : InvOK o (migrateTo10 o (.obj es)) := by
+  have hD := inv_stamp h ((10 : Nat) : Int)
+  have hk := fv_sub hD .obj kDns
+  simp only [migrateTo10, stamp_obj]
+  fv_split
+  · rename_i w
+    cases h1 : v10Field o (.obj w) kUpstreamDns with
+    | error e => simp [InvOK]
+    | ok d1 =>
+      obtain ⟨w1, rfl, hk1⟩ := v10Field_sub hk (by decide) h1
+      dsimp only
+      cases h2 : v10Field o (.obj w1) kLocalPtrUpstreams with
+      | error e => simp [InvOK]
+      | ok d2 =>
+        obtain ⟨w2, rfl, hk2⟩ := v10Field_sub hk1 (by decide) h2
+        simp only [InvOK, putK]
+        exact inv_insert hD hk2
+  · inv_fin
+  · inv_fin
+
+theorem step27_inv (o : Oracles) (es) (h : inv o (.obj es) = true) : InvOK o (migrateTo27 (.obj es)) := by
+  have hD := inv_stamp h ((27 : Nat) : Int)
+  simp only [migrateTo27, stamp_obj]
+  cases h1 : replaceDot (.obj (insert kSchemaVersion (.int ((27 : Nat) : Int)) es)) kQuerylog with
+  | error e => simp [InvOK]
+  | ok d1 =>
+    obtain ⟨es1, rfl, hD1⟩ := replaceDot_inv hD kQuerylog (by decide) h1
+    dsimp only
+    cases h2 : replaceDot (.obj es1) kStatistics with
+    | error e => simp [InvOK]
+    | ok d2 =>
+      obtain ⟨es2, rfl, hD2⟩ := replaceDot_inv hD1 kStatistics (by decide) h2
+      exact hD2
+
+theorem step29_inv (o : Oracles) (es) (h : inv o (.obj es) = true) : InvOK o (migrateTo29 o (.obj es)) := by
+  have hD := inv_stamp h ((29 : Nat) : Int)
+  simp only [migrateTo29, stamp_obj]
+  fv_split
+  · rename_i xs
+    cases hp : v29Paths xs with
+    | error e => simp [InvOK]
+    | ok ps =>
+      dsimp only
+      have hk := fv_sub hD .obj kFiltering
+      fv_split <;> inv_fin
+  · inv_fin
+  · inv_fin
 
 end AGH.C13
